@@ -3,13 +3,14 @@
 import json, os, shutil, sys, subprocess, glob
 sid, line = sys.argv[1], sys.argv[2]
 name = sys.argv[3] if len(sys.argv) > 3 else sid
-src = '/tmp/seed/%s.out' % sid
+root = os.environ.get('SEEDROOT', '/tmp/seed')
+src = '%s/%s.out' % (root, sid)
 dst = '/verif/seeded/%s' % name
 os.makedirs(dst, exist_ok=True)
 shutil.copy(src + '/patch.diff', dst + '/patch.diff')
-demo = subprocess.run("cd /tmp/seed/%s && git status --short | grep '??' | awk '{print $2}' | grep '_test.go$' | head -1" % sid, shell=True, capture_output=True, text=True).stdout.strip()
+demo = subprocess.run("cd " + root + "/%s && git status --short | grep '??' | awk '{print $2}' | grep '_test.go$' | head -1" % sid, shell=True, capture_output=True, text=True).stdout.strip()
 if demo:
-    shutil.copy('/tmp/seed/%s/%s' % (sid, demo), dst + '/' + os.path.basename(demo) + '.txt')
+    shutil.copy('%s/%s/%s' % (root, sid, demo), dst + '/' + os.path.basename(demo) + '.txt')
 elif os.path.exists(src + '/demo_test.go'):
     shutil.copy(src + '/demo_test.go', dst + '/demo_test.go.txt')
 meta = {}
